@@ -272,6 +272,16 @@ def random_expr(rng, target, d, const_pool, var_pool, p_leaf=0.25):
     return ("bin", op, l, rr)
 
 
+def random_arith(rng, d, var_pool, p_leaf=0.2, p_par=0.08):
+    """trees of + - * / % over variables only (the fragment of C02_partial), redundant parentheses now and then"""
+    if d == 0 or rng.random() < p_leaf:
+        return ("v", rng.choice(var_pool))
+    if rng.random() < p_par:
+        return ("par", random_arith(rng, d - 1, var_pool, p_leaf, p_par))
+    op = rng.choice(["+", "-", "*", "/", "%", "+", "-", "*"])
+    return ("bin", op, random_arith(rng, d - 1, var_pool, p_leaf, p_par), random_arith(rng, d - 1, var_pool, p_leaf, p_par))
+
+
 def chain_expr(rng, target, const_pool, var_pool):
     """flat chains `o1 op o2 op o3 ...` (2-6 operators, no parentheses): the shape that stresses the
     shunting-yard and optimize_const's grouping."""
